@@ -155,7 +155,8 @@ pub fn interval(args: &[String]) {
                     let strict = !use_teval; // requested times may repeat
                     if (w[1] - w[0]) * dirn < 0.0 || (strict && w[1] == w[0]) { fail("c03-monotone", format!("sample times {} then {} do not move strictly toward xend", w[0], w[1])); }
                 }
-                for t in &sol.t { if (t - c.xend) * dirn > 0.0 { fail("c03-overshoot", format!("sample time {} lies beyond xend = {}", t, c.xend)); } }
+                // (the landing step is x + (xend - x), which may round one ulp past xend: the property says 'xend to rounding')
+                for t in &sol.t { if (t - c.xend) * dirn > 4.0 * f64::EPSILON * c.xend.abs().max(c.x0.abs()) { fail("c03-overshoot", format!("sample time {} lies beyond xend = {}", t, c.xend)); } }
                 let slack = 1e-13 * (1.0 + lo.abs().max(hi.abs()));
                 for t in p.times.borrow().iter() {
                     if *t < lo - slack || *t > hi + slack { fail("c03-eval-outside", format!("right-hand side / Jacobian / event function evaluated at t = {} outside [{}, {}]", t, lo, hi)); break; }
@@ -396,7 +397,7 @@ pub fn protocol(args: &[String]) {
                 let (a, b) = (&rec.cbs[k - 1], &rec.cbs[k]);
                 if (b.xold - a.x).abs() > 1e-12 * (1.0 + a.x.abs()) { fail("c19-contiguous", format!("callback {}: xold = {} but the previous x was {}", k, b.xold, a.x), &mut why, &mut key); }
                 if (b.x - b.xold) * sgn <= 0.0 { fail("c19-direction", format!("callback {}: interval [{}, {}] does not advance", k, b.xold, b.x), &mut why, &mut key); }
-                if (b.x - c.xend) * sgn > 0.0 { fail("c03-overshoot", format!("callback {}: x = {} lies beyond xend = {}", k, b.x, c.xend), &mut why, &mut key); }
+                if (b.x - c.xend) * sgn > 4.0 * f64::EPSILON * c.xend.abs().max(c.x0.abs()) { fail("c03-overshoot", format!("callback {}: x = {} lies beyond xend = {}", k, b.x, c.xend), &mut why, &mut key); }
                 if !b.has_interp { fail("c19-interpolant", format!("callback {} has no interpolant", k), &mut why, &mut key); }
             }
             if base.status == Status::Success && (rec.cbs[ncb - 1].x - c.xend).abs() > 1e-12 * (1.0 + c.xend.abs()) { fail("c03-success-not-reached", format!("Success but the last callback is at x = {} (xend = {})", rec.cbs[ncb - 1].x, c.xend), &mut why, &mut key); }
@@ -445,10 +446,13 @@ pub fn protocol(args: &[String]) {
             }
             // doubling on a linear homogeneous problem (absolute tolerance scaled too would be needed for exactness: use rtol only)
             if linear && (why.is_empty() || key == "c19-modified-noop-BDF") {
-                let p4 = Prob::new(c.kind);
+                // (implicit methods: with the analytic Jacobian; the finite-difference increments eps*max(|y|,1) are not
+                //  scale-invariant, so there the symmetry holds only to rounding)
+                let imp = matches!(c.method, Method::RADAU | Method::BDF);
+                let p4 = Prob { user_jac: imp, ..Prob::new(c.kind) };
                 let mut r4 = Recorder::new();
                 r4.script = vec![(k, Reply::Modify(2.0))];
-                let p5 = Prob::new(c.kind);
+                let p5 = Prob { user_jac: imp, ..Prob::new(c.kind) };
                 let mut r5 = Recorder::new();
                 // reference: the same callback returns ModifiedSolution without touching the state
                 r5.script = vec![(k, Reply::Modify(1.0))];
